@@ -94,7 +94,8 @@ def serial_shard(variant, T):
     tally = Tally()
     hs, xs = inputs_for(T)
     B = len(hs)
-    skind, delay, transform, neuron_kind = variant
+    skind, delay, transform, neuron_kind = variant[:4]
+    named = len(variant) > 4 and variant[4]  # distinct custom names for the connection and the neuron, keyword arguments routed to the neuron
     tf = (lambda x, **kw: x * 2.0) if transform else None
     def mk_conn():
         c = dense(B, W1, skind, delay)
@@ -102,10 +103,21 @@ def serial_shard(variant, T):
             c.updater = c.defaultupdater()
         return c
 
-    mk_neu = (lambda: lif(B)) if neuron_kind == "lif" else (lambda: alif(B))
-    case = {"layer": "Serial", "synapse": skind, "delay": delay, "transform": transform, "neuron": neuron_kind, "T": T}
+    if neuron_kind == "exact":
+        from inferno.extra import ExactNeuron
+        mk_neu = lambda: ExactNeuron((2,), DT, rest_v=0.0, thresh_v=1.0, batch_size=B)
+    else:
+        mk_neu = (lambda: lif(B)) if neuron_kind == "lif" else (lambda: alif(B))
+    names = dict(connection_name="conn", neuron_name="neur") if named else {}
+
+    def nkw(x):  # keyword arguments for the neuron at a step whose input is x
+        if not named:
+            return {}
+        return {"override": x.clone()} if neuron_kind == "exact" else {"refrac_lock": False}
+
+    case = {"layer": "Serial", "synapse": skind, "delay": delay, "transform": transform, "neuron": neuron_kind, "T": T, "custom_names_and_neuron_kwargs": bool(named)}
     try:
-        layer = Serial(mk_conn(), mk_neu(), transform=tf)
+        layer = Serial(mk_conn(), mk_neu(), transform=tf, **names)
     except Exception as ex:
         tally.violation(f"exception:construct:Serial:{type(ex).__name__}", case, repr(ex))
         return tally
@@ -117,19 +129,20 @@ def serial_shard(variant, T):
         try:
             xin = xs[t].clone()
             g = Guard(xin)
-            out, inter = layer(xin, capture_intermediate=True)
+            out, inter = layer(xin, capture_intermediate=True, **({"neuron_kwargs": nkw(xs[t])} if named else {}))
             g.release(tally, "input-mutated:Serial", {**case, "step": t})
         except Exception as ex:
             tally.violation(f"exception:forward:Serial:{type(ex).__name__}", {**case, "step": t}, repr(ex))
             return tally
         co = c(xs[t])
-        exp = n((co * 2.0) if transform else co)
+        exp = n((co * 2.0) if transform else co, **nkw(xs[t]))
         ok &= cmp(tally, "serial:output", {**case, "step": t}, out, exp, "layer output")
         ok &= cmp(tally, "serial:intermediate", {**case, "step": t}, inter, co, "captured connection output")
         if tuple(out.shape) != tuple(layer.neuron.batchedshape):
             tally.violation("serial:output-not-batchedshape", {**case, "step": t}, f"{tuple(out.shape)} vs {layer.neuron.batchedshape}")
         fresh_out.append(out.clone())
-    clear_replay(tally, case, lambda: Serial(mk_conn(), mk_neu(), transform=tf), lambda L, x: L(x), xs, T, fresh_out if ok else None)
+    clear_replay(tally, case, lambda: Serial(mk_conn(), mk_neu(), transform=tf, **names),
+                 (lambda L, x: L(x, neuron_kwargs=nkw(x))) if named else (lambda L, x: L(x)), xs, T, fresh_out if ok else None)
     tally.mark("nontrivial", ("serial", variant))
     tally.add("histories", B)
     return tally
@@ -147,13 +160,18 @@ def clear_replay(tally, case, mk_layer, step, xs, T, fresh_out):
         ref = mk_layer()
         ref.eval()
         try:
+            kept = []
             for t in range(p):
-                step(L, xs[t])
+                o = step(L, xs[t])
+                kept += [(x, x.clone()) for x in (o if isinstance(o, tuple) else (o,))]
             sd_before = {k: v.clone() for k, v in L.state_dict().items() if isinstance(v, torch.Tensor) and ("weight" in k or "bias" in k or "delay_" in k or "adaptation" in k)}
             L.clear()
         except Exception as ex:
             tally.violation(f"exception:clear:{case['layer']}:{type(ex).__name__}", {**case, "clear_after_steps": p}, f"clear() raised {type(ex).__name__}: {ex}", None, repr(ex))
             return
+        # what earlier steps returned belongs to the caller: a later clear() must not reach into it
+        if any(not torch.equal(x, c) for x, c in kept):
+            tally.violation(f"clear-changed-returned-output:{case['layer']}", {**case, "clear_after_steps": p}, "clear() changed a tensor that an earlier step had returned")
         sd_after = {k: v for k, v in L.state_dict().items() if k in sd_before}
         for k in sd_before:
             if not torch.equal(sd_before[k], sd_after[k]):
@@ -474,6 +492,10 @@ def run(rep):
             for transform in (False, True):
                 for nk in ("lif", "alif"):
                     jobs.append((serial_shard, ((skind, delay, transform, nk), T)))
+    for nk in ("lif", "alif", "exact"):
+        for transform in (False, True):
+            jobs.append((serial_shard, (("delta", None, transform, nk, True), T)))
+    jobs.append((serial_shard, (("delta", None, False, "exact"), T)))
     for combine in ("sum", "mean", "prod", "min", "max", "custom"):
         for tr in (False, True):
             jobs.append((biclique_shard, (combine, tr, T)))
